@@ -7,7 +7,9 @@ CONSTANT TsPool = {1, 2}
 CONSTANT Servers <- ServersImpl
 CONSTANT NewIds <- NewIdsImpl
 CONSTANT IdLess <- IdLessImpl
-CONSTANT BaseNames = {"bare", "public", "mainline", "invite", "nopl"}
+CONSTANT AllSubsets = TRUE
+CONSTANT Triples = FALSE
+CONSTANT BaseNames = {"bare", "nopl", "invite"}
 INVARIANT InvIdentity
 INVARIANT Emit
 CHECK_DEADLOCK FALSE
